@@ -108,9 +108,27 @@ func (f *FieldCopyFromGenerator) nextField(g func(g *j.Group)) *j.Statement {
 			j.List(j.Id("v"), j.Id("ok")).Op(":=").Id("a").Assert(j.Id(f.i.WithType(f.ValueType))),
 			j.If(j.Id("!ok")).BlockFunc(
 				f.errAttrConversionFailure(f.Path, f.ValueType),
-			).Else().BlockFunc(g),
+			).Else().BlockFunc(f.withOptionalEmbedParent(g)),
 		),
 	)
+}
+
+// withOptionalEmbedParent guards the code of a message, list or map field of a nullable embedded message, which
+// writes the field unconditionally: a known value allocates the embedded message first, a null or unknown one has
+// nothing to reset when there is no embedded message. Primitive fields handle the parent on their own.
+func (f *FieldCopyFromGenerator) withOptionalEmbedParent(g func(g *j.Group)) func(g *j.Group) {
+	if !f.ParentIsOptionalEmbed || f.Kind == PrimitiveKind {
+		return g
+	}
+
+	parent := "obj." + f.ParentIsOptionalEmbedFieldName
+
+	return func(group *j.Group) {
+		group.If(j.Id(parent).Op("==").Nil().Op("&&").Id("!v.Null && !v.Unknown")).Block(
+			j.Id(parent).Op("=").Id("&" + f.ParentIsOptionalEmbedFullType + "{}"),
+		)
+		group.If(j.Id(parent).Op("!=").Nil()).BlockFunc(g)
+	}
 }
 
 // genPrimitiveBody generates fragment which converts attr.Value v to go variable t
@@ -303,10 +321,17 @@ func (f *FieldCopyFromGenerator) genObjectListOrMap() *j.Statement {
 
 // genCustom generates statement representing custom type
 func (f *FieldCopyFromGenerator) genCustom() *j.Statement {
-	return j.Block(
+	return j.BlockFunc(func(g *j.Group) {
 		// a, ok := ft.Attrs["key"]
-		j.List(j.Id("a"), j.Id("ok")).Op(":=").Id("tf.Attrs").Index(j.Lit(f.NameSnake)),
-		j.If(j.Id("!ok")).BlockFunc(f.errAttrMissingDiag),
-		j.Id("CopyFrom"+f.Suffix).Params(j.Id("diags"), j.Id("a"), j.Id("&obj."+f.Name)),
-	)
+		g.List(j.Id("a"), j.Id("ok")).Op(":=").Id("tf.Attrs").Index(j.Lit(f.NameSnake))
+		g.If(j.Id("!ok")).BlockFunc(f.errAttrMissingDiag)
+		if f.ParentIsOptionalEmbed {
+			// The hook gets a pointer to the field: the embedded message must exist
+			parent := "obj." + f.ParentIsOptionalEmbedFieldName
+			g.If(j.Id(parent).Op("==").Nil()).Block(
+				j.Id(parent).Op("=").Id("&" + f.ParentIsOptionalEmbedFullType + "{}"),
+			)
+		}
+		g.Id("CopyFrom"+f.Suffix).Params(j.Id("diags"), j.Id("a"), j.Id("&obj."+f.Name))
+	})
 }
